@@ -232,6 +232,68 @@ def run(ctx):
         res.site(key, True, {"site": key, "mem_replace": len(repl), "index_mut": len(idxmut), "push": len(pushes), "order_disturbing": bad, "detail": why, "verdict": "ok" if ok else "VIOLATION"})
         if not ok:
             res.find(key, f.loc(), "CalibrationSet::replace does not overwrite the found element in place (mem::replace at the found index with no length-changing call)", "redefining the first of two calibrations moves it behind the second")
+    # R4 (K10) the definition stores are also *built* in order: in the program modules (everything that constructs, merges,
+    #    filters or rebuilds a Program and its stores) (a) no call that scrambles the order of the remaining elements is
+    #    applied to an insertion-ordered container, and (b) the elements put into an insertion-ordered container never come
+    #    out of an iteration over a hash-ordered one
+    SCRAMBLING = re.compile(r"::(swap_remove|swap_remove_entry|swap_remove_full|swap_remove_index|swap_take|sort|sort_by|sort_by_key|sort_by_cached_key|sort_unstable|sort_unstable_by|sort_unstable_by_key|sort_keys|sort_unstable_keys|sorted_by|sorted_unstable_by|reverse|swap_indices|move_index|rotate_left|rotate_right|swap)$")
+    ORDERED = re.compile(r"^(&mut |&)?(indexmap::(IndexMap|IndexSet)|std::vec::Vec)<")
+
+    def in_scope(f):
+        p_ = f.path
+        if not (p_.startswith("quil_rs::program::") or p_.startswith("<quil_rs::program::") or "ExternPragmaMap" in p_ or "ExternSignatureMap" in p_):
+            return False
+        return not any(x in p_ for x in ("::scheduling::", "::analysis::", "::type_check::", "::source_map::"))
+
+    scoped = [f for f in db.fns if in_scope(f)]
+    res.count("store_building_functions", len(scoped), floor=150)
+    nscr = 0
+    for f in scoped:
+        for bb, t, c in f.calls():
+            if not (c and t["args"]):
+                continue
+            p_ = callee_path(c)
+            a0 = t["args"][0]
+            pl = a0.get("m") or a0.get("c")
+            recv_ty = db.ty_s(f.locals[pl["l"]]["t"]) if pl else ""
+            if SCRAMBLING.search(p_) and (ORDERED.search(recv_ty) or "indexmap::" in p_ or "std::vec::Vec" in p_ or "slice" in p_):
+                nscr += 1
+                key = "K10|order-scrambling|%s|%s" % (f.path, p_.rsplit("::", 1)[-1])
+                res.site(key, True, {"receiver": recv_ty[:80], "verdict": "VIOLATION"})
+                res.find(key, f.loc(t.get("sp")), "%s applies %s to an insertion-ordered container (%s): the remaining definitions change places" % (f.path.replace("quil_rs::", ""), p_.rsplit("::", 1)[-1], recv_ty[:60]), "definitions [hx, FOO, BAR, BAZ] with hx removed are listed as BAZ, FOO, BAR")
+    res.site("K10|order-scrambling", True, {"sites": nscr})
+    from qv.engine import walk_expr as _wx
+    nfill = 0
+    for f in scoped:
+        for bb, t, c in f.calls():
+            if not c or c.get("name") not in ("collect", "from_iter", "extend", "insert", "push", "insert_full", "append"):
+                continue
+            if c.get("name") in ("collect", "from_iter"):
+                tty = db.ty_s(f.locals[t["dest"]["l"]]["t"])
+                srcs = t["args"][:1]
+            else:
+                a0 = t["args"][0] if t["args"] else None
+                pl = (a0.get("m") or a0.get("c")) if a0 else None
+                tty = db.ty_s(f.locals[pl["l"]]["t"]) if pl else ""
+                srcs = t["args"][1:]
+            if not ORDERED.search(tty) and "FrameSet" not in tty and "CalibrationSet" not in tty and "Calibrations" not in tty:
+                continue
+            nfill += 1
+            bad = []
+            for a in srcs:
+                e = fn_expr_operand(f, a)
+                ns = []
+                _wx(e, ns.append)
+                for n in ns:
+                    if n[0] == "call" and isinstance(n[3], int) and 0 <= n[3] < len(f.blocks):
+                        c2 = callee_of(f.blocks[n[3]]["t"]) if f.blocks[n[3]]["t"]["k"] == "call" else None
+                        if c2 and callee_path(c2) == n[1] and is_hash_iteration(db, c2):
+                            bad.append(n[1].rsplit("::", 1)[-1])
+            if bad:
+                key = "K6|ordered-store-filled-in-hash-order|%s|%s" % (f.path, c.get("name"))
+                res.site(key, True, {"target": tty[:80], "verdict": "VIOLATION"})
+                res.find(key, f.loc(t.get("sp")), "%s fills an insertion-ordered container (%s) with elements obtained by iterating a hash-ordered one (%s): their order differs between runs" % (f.path.replace("quil_rs::", ""), tty[:60], sorted(set(bad))), "simplify() on a program with seven used frames lists the DEFFRAMEs as 4, 0, 5, 3, 1, 6, 2")
+    res.count("ordered_container_fill_sites", nfill, floor=40)
     res.explanation = (
         "Effect confinement (K6) + container typing (K10): %d hash-iteration call sites exist in the crate, %d lie in the %d functions reachable from the "
         "serialization entry points (%d Quil::write impls, to_instructions, into_instructions); each must end in an order-insensitive consumer. "
